@@ -186,12 +186,14 @@ def run(repo, rep, tier):
             if not ok:
                 rep.finding("R3.4", npf, npf.node, f"_numpy hands batches to {sorted(slots_np)} but fill fills {sorted(slots_fill)}: a child that one "
                             f"path never visits keeps no record of the batch", stmt=f"slots {sorted(slots_np ^ slots_fill)}")
-    coverage_guard(repo, prims)
+    coverage_guard(repo, prims, rep=rep)
     positive_control(repo, rep, r3)
     merge_formulas(repo, rep, r5, models)
 
 
-def coverage_guard(repo, prims, names=("fill", "_numpy")):
+def coverage_guard(repo, prims, names=("fill", "_numpy"), rep=None):
+    """Every statement of every fill/_numpy must be reached by some scenario.  With `rep` the failure is deferred to the end
+    of the run: it ends the run as ANALYSIS-ERROR unless a reported violation already accounts for the changed code."""
     for c in prims:
         for name in names:
             f = repo.own_method(c, name)
@@ -205,9 +207,13 @@ def coverage_guard(repo, prims, names=("fill", "_numpy")):
                 # the body of a branch that only raises / statements after which only a raise follows are validation paths
                 if norm(n) in UNCOVERED_OK:
                     continue
-                par = getattr(n, "_parent", None)
-                raise AnalysisError(f"{f.construct}: statement `{norm(n)[:70]}` (line {n.lineno}) is not reached by any scenario of the abstract "
-                                    f"interpreter: the comparison would be vacuous for it")
+                msg = (f"{f.construct}: statement `{norm(n)[:70]}` (line {n.lineno}) is not reached by any scenario of the abstract "
+                       f"interpreter: the comparison would be vacuous for it")
+                if rep is None:
+                    raise AnalysisError(msg)
+                if not hasattr(rep, "deferred"):
+                    rep.deferred = []
+                rep.deferred.append(msg)
 
 
 CONTROL_SRC = '''
